@@ -249,6 +249,12 @@ func (lc *lockClient) do(q creq, isDirTarget bool) obs {
 		}
 	case opReadCD2048:
 		fixed(int(uint32(q.b)) * 2048)
+		if lc.roVirtual {
+			// a generated image never carries the probed signatures: sectors are taken at the default stride
+			for k := 0; k*2048 < len(o.data); k++ {
+				maskImage(o.data[k*2048:min(len(o.data), (k+1)*2048)], 24+(int64(q.a)+int64(k))*2352, lc.roPS3)
+			}
+		}
 	case opReadDirEntry:
 		if fixed(11) {
 			fixed(int(binary.BigEndian.Uint16(o.data[8:])))
